@@ -10,4 +10,4 @@ CONSTANTS
   MaxBatchOps = 1
   Stops = {0}
   Muts = {TRUE}
-  Ops = {"Get", "Has", "Set", "Delete", "DeletePrefix", "Clear", "Flush", "Close", "Realm", "Batched", "Iterate", "IterateKeys", "WithRealm", "WithExtendedRealm", "BSet", "BDelete", "Cancel", "Commit"}
+  Ops = {"Get", "Has", "Set", "Delete", "DeletePrefix", "Clear", "Flush", "Close", "Realm", "Batched", "Iterate", "IterMut", "IterateKeys", "WithRealm", "WithExtendedRealm", "BSet", "BDelete", "Cancel", "Commit"}
